@@ -48,7 +48,8 @@ static struct result* R;             // slot the current execution writes to (MA
 static uint8_t g_prefix[MAXPOINTS];
 static uint32_t g_prefix_len;
 static int g_trace;                  // replay mode: print every step
-static unsigned g_max_steps = 20000;
+static unsigned g_max_steps = 4000;
+static unsigned g_max_points = 3000;
 static uint64_t g_tick_ns = 0;       // virtual time added per clock read
 static int g_starve = 40; // consecutive steps after which a thread is switched out for free when others are enabled
 static int g_spin = 12;   // consecutive steps alone (everyone else asleep) after which time passes to the next wake-up
@@ -62,7 +63,7 @@ static uint8_t* g_cov; static size_t g_cov_n; // edge bitmap shared by all execu
 enum { BLK_NONE = 0, BLK_MUTEX, BLK_COND, BLK_JOIN, BLK_SLEEP };
 struct vt
 {
-    int used, finished, blk, jt, consec;
+    int used, finished, joined, blk, jt, consec;
     void *o1, *o2;
     uint64_t wake;
     int go;
@@ -225,7 +226,11 @@ static void schedule(void)
         int chosen = 0;
         if (n > 1) {
             uint32_t k = R->npoints;
-            if (k >= MAXPOINTS) finish(ST_HORIZON, "choice-point-horizon", "too many choice points");
+            if (k >= g_max_points) {
+                char d[1200];
+                describe_threads(d, sizeof d);
+                finish(ST_HORIZON, "step-horizon", d);
+            }
             if (k < g_prefix_len) {
                 chosen = g_prefix[k];
                 if (chosen >= n) finish(ST_DIVERGED, "replay-diverged", "recorded choice out of range while replaying a prefix");
@@ -403,11 +408,12 @@ int pthread_join(pthread_t th, void** ret)
 {
     resolve_real();
     if (controlled()) {
-        for (int i = 0; i < NT; ++i)
-            if (T[i].used && pthread_equal(T[i].real, th)) {
+        for (int i = NT - 1; i >= 0; --i) // newest first: glibc recycles pthread_t values of joined threads
+            if (T[i].used && !T[i].joined && pthread_equal(T[i].real, th)) {
                 T[my_tid].jt = i;
                 point(BLK_JOIN, 0, 0, "join");
                 if (ret) *ret = 0;
+                T[i].joined = 1;
                 return real_join(th, 0);
             }
     }
@@ -528,6 +534,7 @@ void vs_join(int tid)
     resolve_real();
     T[my_tid].jt = tid;
     point(BLK_JOIN, 0, 0, "join");
+    T[tid].joined = 1;
     real_join(T[tid].real, 0);
 }
 void vs_sleep_ms(double ms) { vsleep_ns((uint64_t)(ms * 1e6)); }
